@@ -1,9 +1,527 @@
-import Oracle.Proto
-namespace Oracle.C03
+/-
+  Oracle.C03 — reads the lines of harness/cmd/c03 (operation, output, dump of the real
+  table, key hashes) and answers one line per input line: `ok <tags>` or
+  `FAIL <tag> <detail> [;; FAIL …]`.
 
-/-- placeholder: the oracle driver for C03 is not built yet -/
+  Level A (tags A-*): the outputs of the real table against `Spec.Map` — the value most
+  recently assigned to an equal key after normalisation, `isBorder` for `#t`, the
+  traversal relation for `next`/`pairs` (never equality with a particular order or
+  border), `__newindex`/`__index` consulted iff the raw key is absent.
+  Level B (tags B-*): `Model.Table` run with the hashes exported by the hook must give the
+  same outputs and, after every mutation, exactly the dumped state.
+  `inv`: the decidable `Model.Table.Inv` — the invariant of the theorems — evaluated on
+  every dump (a run-time monitor, not a proof).
+-/
+import Oracle.Proto
+import GoluaVerif.Spec.Map
+import GoluaVerif.Model.Table
+import GoluaVerif.Model.TableInv
+import GoluaVerif.Model.Index
+import GoluaVerif.Generated.Comp
+namespace Oracle.C03
+open GoluaVerif GoluaVerif.Spec GoluaVerif.Model.Table Oracle
+
+/-- K token → raw key, and whether it is the second object of a reference class (`r3b`) -/
+def parseKey (s : String) : Option (RawKey × Bool) :=
+  if s.isEmpty then none else
+  let rest := (s.drop 1).toString
+  match s.front with
+  | 'n' => some (.nil, false)
+  | 't' => some (.bool true, false)
+  | 'F' => some (.bool false, false)
+  | 'i' => rest.toInt?.map fun n => (.num (.int (BitVec.ofInt 64 n)), false)
+  | 'f' => (parseHexNat rest).map fun n => (.num (.flt (F64.ofBits (UInt64.ofNat n))), false)
+  | 's' => if rest.isEmpty then some (.str [], false) else (parseHexBytes rest).map fun b => (.str b.toList, false)
+  | 'r' =>
+    let twin := rest.endsWith "b"
+    let digits := if twin then (rest.dropEnd 1).toString else rest
+    digits.toNat?.map fun n => (.ref n, twin)
+  | _ => none
+
+/-- V token: `n` or `i<dec>` (values are positive integers; the `__index` sentinel is negative) -/
+def parseVal (s : String) : Option (Option Int) :=
+  if s == "n" then some none
+  else if s.front == 'i' then ((s.drop 1).toString.toInt?).map some
+  else none
+
+def toVal (v : Option Int) : Option Val := v.map Int.toNat
+
+structure Sess where
+  visited : List Key := []
+  /-- keys present when the traversal started and not cleared since -/
+  stable : List Key := []
+  /-- false once a value was assigned to a non-existent field (manual: behaviour undefined) -/
+  valid : Bool := true
+  last : Option Key := none
+  /-- an assignment to an EXISTING field made the table grow (rehash / array migration) -/
+  rehashed : Bool := false
+
+structure St where
+  leg : String := ""
+  spec : Map := Map.empty
+  keys : List Key := []
+  model : Option Mixed := some Mixed.init
+  hashes : List (Key × Nat) := []
+  sess : Option Sess := none
+  arrSize : Nat := 0
+  arrLen : Nat := 0
+  base : Option Nat := none
+  /-- set when the hashes of this case are unusable (a key with two hashes) -/
+  noB : Bool := false
+  /-- the last mutation assigned a non-nil value to a field that was present -/
+  lastAssignExisting : Bool := false
+
+def hashOf (hs : List (Key × Nat)) (k : Key) : Nat := (hs.lookup k).getD 0
+
+def showKey : Key → String
+  | .int z => "i" ++ toString z
+  | .flt f => "f" ++ hexOfNat (F64.toBits f).toNat 16
+  | .str s => "s" ++ hexOfBytes ⟨s.toArray⟩
+  | .bool true => "t"
+  | .bool false => "F"
+  | .ref id => "r" ++ toString id
+
+def showVal : Option Val → String
+  | none => "n"
+  | some v => "i" ++ toString v
+
+def showNext : NextRes → String
+  | .invalid => "inv"
+  | .done => "end"
+  | .item k v => showKey k ++ " " ++ showVal (some v)
+
+/-- the model state in the format of the dump line (without hashes) -/
+def showMixed (m : Mixed) : String :=
+  let a := match m.arr with
+    | none => "A -1 0"
+    | some a => " ".intercalate (["A", toString a.values.length, toString a.len] ++ a.values.map showVal)
+  let h := match m.hash with
+    | none => "H -1 -1 0"
+    | some h => " ".intercalate (["H", toString h.base, (match h.nextFree with | none => "-1" | some f => toString f), toString h.slots.length] ++
+        h.slots.map fun s => " ".intercalate [(match s.key with | none => "n" | some k => showKey k), showVal s.val, toString s.next,
+          toString ((if s.hasNext then 1 else 0) + (if s.chained then 2 else 0))])
+  a ++ " " ++ h
+
+/-- record the hash of a key; `false` if the key already had a different hash -/
+def addHash (st : St) (k : Key) (h : Nat) : St × Bool :=
+  match st.hashes.lookup k with
+  | some h' => (st, h == h')
+  | none => ({ st with hashes := (k, h) :: st.hashes }, true)
+
+def addKey (st : St) (k : Key) : St :=
+  if st.keys.contains k then st else { st with keys := k :: st.keys }
+
+def present (st : St) : List Key := st.keys.filter fun k => (st.spec k).isSome
+
+/-- effect of an assignment on a running traversal -/
+def sessAssign (st : St) (k : Key) (v : Option Val) (wasPresent : Bool) : St :=
+  match st.sess with
+  | none => st
+  | some s =>
+    let s := match v with
+      | none => { s with stable := s.stable.erase k }
+      | some _ => if wasPresent then s else { s with valid := false }
+    { st with sess := some s }
+
+structure Out where
+  fails : List String := []
+  tags : List String := []
+
+def Out.fail (o : Out) (tag detail : String) : Out := { o with fails := o.fails ++ ["FAIL " ++ tag ++ " " ++ detail] }
+def Out.tag (o : Out) (t : String) : Out := { o with tags := o.tags ++ [t] }
+def Out.render (o : Out) : String :=
+  if o.fails.isEmpty then " ".intercalate ("ok" :: o.tags) else " ;; ".intercalate o.fails
+
+/-- the two hashes of an operation line: `<normalised>` or `<normalised>/<raw>` -/
+def parseHashes (s : String) : Option (Nat × Option Nat) :=
+  match s.splitOn "/" with
+  | [a] => a.toNat?.map fun n => (n, none)
+  | [a, b] => do pure (← a.toNat?, some (← b.toNat?))
+  | _ => none
+
+/-- the key of an operation line: raw value, key as supplied, normalised key; hash bookkeeping -/
+def opKey (st : St) (o : Out) (ktok htok : String) : Option (RawKey × Option Key × Option Key × St × Out) := do
+  let (rk, twin) ← parseKey ktok
+  let (h, hraw) ← parseHashes htok
+  match rk.toKey? with
+  | none => pure (rk, none, none, st, o)
+  | some kr =>
+    let k := kr.norm
+    let (st, good) := addHash st k h
+    let (st, good) := match hraw with
+      | some h' => if kr != k then (let (st, g) := addHash st kr h'; (st, good && g)) else (st, good)
+      | none => (st, good)
+    let st := addKey st k
+    -- the Go key normalisation (regenerated `FloatToInt`) against the spec's, on every float key seen
+    let o := match rk with
+      | .num (.flt f) =>
+        let g := Generated.Comp.FloatToInt f
+        let agrees := match Num.floatToInt? f with
+          | some n => g == (n, Generated.Comp.IsInt)
+          | none => g.2 != Generated.Comp.IsInt
+        if agrees then o else o.fail "B-normalise" ("FloatToInt and Spec.Num.floatToInt? differ on " ++ ktok)
+      | _ => o
+    if good then pure (rk, some kr, some k, st, o)
+    else
+      let tag := if twin then "closure-equal-hash-differs" else "hash-not-function-of-key"
+      pure (rk, some kr, some k, { st with noB := true, model := none },
+        o.fail tag ("values equal under == hash differently: " ++ ktok))
+
+def modelHash (st : St) : Key → Nat := hashOf st.hashes
+
+/-- run a model step that yields a new state -/
+def stepB (st : St) (o : Out) (f : Mixed → Option Mixed) (what : String) : St × Out :=
+  match st.model with
+  | none => (st, o)
+  | some m =>
+    match f m with
+    | some m' => ({ st with model := some m' }, o)
+    | none => ({ st with model := none }, o.fail "B-model-panic" ("the model panics or diverges on " ++ what))
+
+def doSet (st : St) (o : Out) (ktok htok vtok outv : String) : Option (St × Out) := do
+  let (_, kr?, k?, st, o) ← opKey st o ktok htok
+  let v := toVal (← parseVal vtok)
+  match kr?, k? with
+  | none, _ | _, none =>
+    -- nil / NaN key: must be rejected, table unchanged
+    pure (st, if outv == "err" then o else o.fail "A-bad-key-accepted" ktok)
+  | some kr, some k =>
+    let o := if outv == "ok" then o else o.fail "A-set-error" (ktok ++ " " ++ outv)
+    let was := (st.spec k).isSome
+    let o := if st.sess.isSome then o.tag "trav-update" else o
+    let st := sessAssign st k v was
+    let st := { st with spec := st.spec.update k v, lastAssignExisting := was && v.isSome }
+    let hash := modelHash st
+    let o := match st.model with
+      | some m => match v with
+        | some _ => if hFull m.hash && (match toInt k with | some i => !(match m.arr with | some a => a.has i | none => false) | none => true)
+                    then o.tag ("grow:" ++ reprStr (growCase m))
+                    else o
+        | none => o
+      | none => o
+    let o := match st.model, v with
+      | some m, some _ =>
+        -- which branch of insertNewKeyValue is about to run (when the key is new to the hash part)
+        match m.hash with
+        | some h =>
+          if (hashLookupSlot h.slots k).isNone && !hFull m.hash then
+            match insCase hash h.slots h.mask k with
+            | some c => o.tag ("ins:" ++ reprStr c)
+            | none => o
+          else o
+        | none => o
+      | _, _ => o
+    -- `t[k] = v` from Lua is SetIndex: Table.Reset first, Table.Set only when that fails
+    let step (m : Mixed) : Option Mixed :=
+      if st.leg == "lua" then do
+        let (m', wasSet) ← treset hash m kr v
+        if wasSet then pure m' else tset hash m kr v
+      else tset hash m kr v
+    pure (stepB st o step ("set " ++ ktok))
+where
+  hashLookupSlot (slots : List Slot) (k : Key) : Option Slot := slots.find? (·.key = some k)
+
+def doReset (st : St) (o : Out) (ktok htok vtok outv : String) : Option (St × Out) := do
+  let (_, kr?, k?, st, o) ← opKey st o ktok htok
+  let v := toVal (← parseVal vtok)
+  match kr?, k? with
+  | none, _ | _, none => pure (st, if outv == "F" then o else o.fail "A-reset-bad-key" ktok)
+  | some kr, some k =>
+    let was := (st.spec k).isSome
+    let o := if outv == "t" || outv == "F" then o else o.fail "A-reset-error" (ktok ++ " " ++ outv)
+    let o := if (outv == "t") == was then o
+      else o.fail (if kr != k then "reset-float-key-misses-hash" else "A-reset")
+        (ktok ++ " returned " ++ outv ++ " but the key is " ++ (if was then "present" else "absent"))
+    let o := if st.sess.isSome then o.tag "trav-update" else o
+    -- the spec follows what the implementation reports (a mismatch has been reported above)
+    let did := outv == "t"
+    let st := if did then sessAssign st k v was else st
+    let st := if did then { st with spec := st.spec.update k v } else st
+    let st := { st with lastAssignExisting := false }
+    let hash := modelHash st
+    match st.model with
+    | none => pure (st, o)
+    | some m =>
+      match treset hash m kr v with
+      | none => pure ({ st with model := none }, o.fail "B-model-panic" ("reset " ++ ktok))
+      | some (m', w) =>
+        let o := if w == (outv == "t") then o else o.fail "B-reset" (ktok ++ " model says " ++ toString w)
+        pure ({ st with model := some m' }, o)
+
+def doGet (st : St) (o : Out) (ktok htok outv : String) : Option (St × Out) := do
+  let (_, kr?, k?, st, o) ← opKey st o ktok htok
+  let expected : Option Val := match k? with
+    | none => none
+    | some k => st.spec k
+  let isRef := match k? with | some (.ref _) => true | _ => false
+  let o := if outv == showVal expected then o
+    else o.fail (if isRef && st.noB then "closure-equal-hash-differs" else "A-get")
+      (ktok ++ " returned " ++ outv ++ ", most recent assignment " ++ showVal expected)
+  match kr?, st.model with
+  | some k, some m =>
+    match get (modelHash st) m k with
+    | none => pure ({ st with model := none }, o.fail "B-model-panic" ("get " ++ ktok))
+    | some v => pure (st, if showVal v == outv then o else o.fail "B-get" (ktok ++ " model " ++ showVal v))
+  | _, _ => pure (st, o)
+
+def doLen (st : St) (o : Out) (outv : String) : Option (St × Out) := do
+  let n ← outv.toNat?
+  let o := if decide (Map.isBorder st.spec n) then o else o.fail "A-border" (outv ++ " is not a border")
+  match st.model with
+  | some m =>
+    match len (modelHash st) m with
+    | none => pure ({ st with model := none }, o.fail "B-model-panic" "len")
+    | some l => pure (st, if l == n then o else o.fail "B-len" ("model " ++ toString l))
+  | none => pure (st, o)
+
+def doNext (st : St) (o : Out) (ktok htok : String) (res : List String) : Option (St × Out) := do
+  let (rk, kr?, k?, st, o) ← opKey st o ktok htok
+  -- level B first: the model's answer
+  let (st, o) := match st.model with
+    | some m =>
+      let arg : Option (Option Key) := match rk, kr? with
+        | .nil, _ => some none
+        | _, some k => some (some k)
+        | _, none => none   -- NaN: not modelled
+      match arg with
+      | none => (st, o)
+      | some a =>
+        match next (modelHash st) m a with
+        | none => ({ st with model := none }, o.fail "B-model-panic" ("next " ++ ktok))
+        | some r =>
+          let got := " ".intercalate res
+          -- normalise the implementation's key token through the same parser
+          let implShown := match res with
+            | [k', v'] => match parseKey k' with
+              | some (rk', _) => match rk'.norm with
+                | some kk => showKey kk ++ " " ++ v'
+                | none => got
+              | none => got
+            | _ => got
+          (st, if showNext r == implShown then o else o.fail "B-next" (ktok ++ " model " ++ showNext r))
+    | none => (st, o)
+  -- level A: the traversal relation
+  let start := rk == .nil
+  let st := if start then
+      { st with sess := some { stable := present st } }
+    else st
+  let continuing : Bool := match st.sess, k? with
+    | some s, some k => start || s.last == some k
+    | some _, none => start
+    | none, _ => false
+  let arrayShrunk : Bool := match k? with
+    | some (.int z) => decide (1 ≤ z) && decide (z ≤ (st.arrSize : Int)) && decide ((st.arrLen : Int) < z)
+    | _ => false
+  let zeroRestart : Bool := k? == some (.int 0) && st.arrSize > 0
+  match res with
+  | ["inv"] =>
+    if continuing then
+      let valid := (st.sess.map (·.valid)).getD false
+      let o := if !valid then o
+        else if arrayShrunk then o.fail "array-next-after-clear" ("next(" ++ ktok ++ ") is invalid: the key was returned by this traversal, lies in the array part (size " ++ toString st.arrSize ++ ") above len " ++ toString st.arrLen)
+        else o.fail (if (st.sess.map (·.rehashed)).getD false then "assign-existing-rehashes" else "A-next-invalid")
+          ("next(" ++ ktok ++ ") is invalid although the key was returned by this traversal")
+      pure ({ st with sess := none }, o)
+    else
+      -- a key outside a traversal: invalid is wrong only when the key is present
+      let o := match k? with
+        | some k => if (st.spec k).isSome then
+            (if arrayShrunk then o.fail "array-next-after-clear" ("next(" ++ ktok ++ ") invalid for a present key")
+             else o.fail "A-next-invalid-present" ktok)
+          else o
+        | none => o
+      pure (st, o)
+  | ["end"] =>
+    if continuing then
+      match st.sess with
+      | some s =>
+        let missed := if s.valid then s.stable.filter (fun k => !s.visited.contains k) else []
+        let o := match missed with
+          | [] => o
+          | k :: _ => o.fail (if s.rehashed then "assign-existing-rehashes" else "A-next-missed")
+              ("traversal ended without visiting " ++ showKey k ++ " which stayed present")
+        pure ({ st with sess := none }, o.tag "trav-end")
+      | none => pure (st, o)
+    else pure (st, o)
+  | ["err"] => pure ({ st with sess := none }, match k? with
+      | none => if start then o.fail "A-next-error" ktok else o   -- next(t, NaN) may raise
+      | some _ => o.fail "A-next-error" ktok)
+  | [k', v'] =>
+    let (rk', _) ← parseKey k'
+    let v := toVal (← parseVal v')
+    match rk'.norm with
+    | none => pure (st, o.fail "A-next-bad-key" k')
+    | some kk =>
+      let o := if st.spec kk == v && v.isSome then o
+        else o.fail "A-next-stale" ("next returned " ++ k' ++ " " ++ v' ++ " but the table holds " ++ showVal (st.spec kk))
+      -- a returned key must be in normal form
+      let o := if showKey kk == k' || k'.front == 'r' then o else o.fail "A-next-unnormalised" k'
+      if continuing then
+        match st.sess with
+        | some s =>
+          let o := if s.valid && s.visited.contains kk then
+              (if zeroRestart then o.fail "next-zero-restarts-array" ("next(" ++ ktok ++ ") returned " ++ k' ++ " again: next(t, 0) restarts the traversal when the table has an array part")
+               else o.fail (if s.rehashed then "assign-existing-rehashes" else "A-next-revisit")
+                 ("next(" ++ ktok ++ ") returned " ++ k' ++ " a second time"))
+            else o
+          -- after a repeated key the traversal is over as far as the relation goes
+          if s.valid && s.visited.contains kk then pure ({ st with sess := none }, o)
+          else pure ({ st with sess := some { s with visited := kk :: s.visited, last := some kk } }, o)
+        | none => pure (st, o)
+      else pure (st, o)
+  | _ => none
+
+def doNewindex (st : St) (o : Out) (ktok htok vtok outv : String) : Option (St × Out) := do
+  let (_, kr?, k?, st, o) ← opKey st o ktok htok
+  let v := toVal (← parseVal vtok)
+  match kr?, k? with
+  | none, _ | _, none => pure (st, if outv == "err" then o else o.fail "A-newindex-bad-key" (ktok ++ " " ++ outv))
+  | some kr, some k =>
+    let absent := (st.spec k).isNone
+    let o := if outv == (if absent then "t" else "F") then o
+      else o.fail (if kr != k && !absent then "newindex-float-key-present" else "A-newindex")
+        (ktok ++ ": __newindex called = " ++ outv ++ " but the raw key is " ++ (if absent then "absent" else "present"))
+    -- the logging handler assigns nothing; the spec follows what the implementation reports
+    let st := if outv == "F" then { st with spec := st.spec.update k v } else st
+    match st.model with
+    | none => pure (st, o)
+    | some m =>
+      match Model.Index.setIndexStep (modelHash st) m kr v with
+      | none => pure ({ st with model := none }, o.fail "B-model-panic" ("setindex " ++ ktok))
+      | some (.done m') =>
+        pure ({ st with model := some m' }, if outv == "F" then o else o.fail "B-newindex" (ktok ++ " model: raw assignment"))
+      | some .consult =>
+        pure (st, if outv == "t" then o else o.fail "B-newindex" (ktok ++ " model: consult __newindex"))
+
+def doIndex (st : St) (o : Out) (ktok htok called vtok : String) : Option (St × Out) := do
+  let (_, kr?, k?, st, o) ← opKey st o ktok htok
+  let expected : Option Val := match k? with
+    | none => none
+    | some k => st.spec k
+  let o := if called == (if expected.isNone then "t" else "F") then o
+    else o.fail "A-index" (ktok ++ ": __index called = " ++ called ++ " but the raw value is " ++ showVal expected)
+  let o := if expected.isSome && vtok != showVal expected then o.fail "A-index-value" (ktok ++ " " ++ vtok) else o
+  match kr?, st.model with
+  | some k, some m =>
+    match Model.Index.indexStep (modelHash st) m k with
+    | none => pure ({ st with model := none }, o.fail "B-model-panic" ("index " ++ ktok))
+    | some (.done v) => pure (st, if called == "F" && vtok == showVal (some v) then o else o.fail "B-index" ktok)
+    | some .consult => pure (st, if called == "t" then o else o.fail "B-index" ktok)
+  | _, _ => pure (st, o)
+
+/-- parse `n` tokens of a dump -/
+def parseSlots (st : St) (o : Out) : Nat → List String → List Slot → Option (List Slot × List String × St × Out)
+  | 0, rest, acc => some (acc.reverse, rest, st, o)
+  | n + 1, k :: v :: nx :: fl :: h :: rest, acc => do
+    let val := toVal (← parseVal v)
+    let nxt ← nx.toNat?
+    let flags ← fl.toNat?
+    let hv ← h.toNat?
+    if k == "n" then
+      parseSlots st o n rest (⟨none, val, nxt, flags % 2 == 1, flags / 2 % 2 == 1⟩ :: acc)
+    else
+      let (rk, twin) ← parseKey k
+      match rk with
+      | .nil => none
+      | _ =>
+        -- keys stored in the table must already be in normal form
+        let (key, o) : Key × Out := match rk.norm, rk with
+          | some kk, .num (.flt f) => if kk == .flt f then (kk, o) else (.flt f, o.fail "inv-key-not-normalised" k)
+          | some kk, _ => (kk, o)
+          | none, .num (.flt f) => (.flt f, o.fail "inv-nan-key" k)
+          | none, _ => (.bool false, o)
+        let (st, good) := addHash st key hv
+        let (st, o) := if good then (st, o) else
+          ({ st with noB := true, model := none },
+           o.fail (if twin then "closure-equal-hash-differs" else "hash-not-function-of-key") k)
+        parseSlots st o n rest (⟨some key, val, nxt, flags % 2 == 1, flags / 2 % 2 == 1⟩ :: acc)
+  | _, _, _ => none
+
+def parseVals : Nat → List String → List (Option Val) → Option (List (Option Val) × List String)
+  | 0, rest, acc => some (acc.reverse, rest)
+  | n + 1, v :: rest, acc => do
+    let val := toVal (← parseVal v)
+    parseVals n rest (val :: acc)
+  | _, _, _ => none
+
+def doDump (st : St) (o : Out) (toks : List String) : Option (St × Out) := do
+  match toks with
+  | "A" :: asz :: alen :: rest =>
+    let asz ← asz.toInt?
+    let alen ← alen.toNat?
+    let (arr, rest) ← if asz < 0 then pure (none, rest) else do
+      let (vs, rest) ← parseVals asz.toNat rest []
+      pure (some (Arr.mk vs alen), rest)
+    match rest with
+    | "H" :: b :: nf :: n :: rest =>
+      let b ← b.toInt?
+      let nf ← nf.toInt?
+      let n ← n.toNat?
+      let (slots, rest, st, o) ← parseSlots st o n rest []
+      if !rest.isEmpty then none else
+      let hash : Option HashTable := if b < 0 then none else some ⟨slots, if nf < 0 then none else some nf.toNat, b.toNat⟩
+      let dumped : Mixed := ⟨hash, arr⟩
+      -- tags for the non-triviality rule
+      let o := if (match st.base, hash with | some b0, some h => decide (b0 < h.base) | none, some _ => true | _, _ => false) then o.tag "grow-hash" else o
+      let o := if arrSize arr != st.arrSize then o.tag "grow-array" else o
+      let o := if arrLen arr > 0 && (match hash with | some h => h.slots.any (·.val.isSome) | none => false) then o.tag "arr+hash" else o
+      let o := match hash with
+        | some h => if h.slots.length > smallHashTableSize then o.tag "hashed" else o
+        | none => o
+      let grew := arrSize arr != st.arrSize ||
+        (match st.base, hash with | some b0, some h => decide (b0 < h.base) | none, some _ => true | _, _ => false)
+      let st := match st.sess with
+        | some s => if grew && st.lastAssignExisting then { st with sess := some { s with rehashed := true } } else st
+        | none => st
+      let st := { st with arrSize := arrSize arr, arrLen := arrLen arr, base := hash.map (·.base), lastAssignExisting := false }
+      if st.noB then pure (st, o) else
+      -- the invariant of the theorems, evaluated on the real state
+      let o := if decide (Inv (modelHash st) dumped) then o else o.fail "inv" "Model.Table.Inv does not hold of the dumped state"
+      -- level B: the model must be in exactly this state
+      match st.model with
+      | some m =>
+        if m == dumped then pure (st, o)
+        else pure ({ st with model := some dumped }, o.fail "B-state" ("model state differs from the dump; model: " ++ showMixed m))
+      | none => pure ({ st with model := some dumped }, o)
+    | _ => none
+  | _ => none
+
+def processLine (st : St) (line : String) : St × String :=
+  let toks := (line.splitOn " ").filter (· ≠ "")
+  let o : Out := {}
+  let r : Option (St × Out) :=
+    match toks with
+    | "C" :: _ :: leg :: _ =>
+      some ({ hashes := st.hashes, leg := leg }, o)
+    | ["S", k, h, v, "=", out] => doSet st o k h v out
+    | ["R", k, h, v, "=", out] => doReset st o k h v out
+    | ["G", k, h, "=", out] => doGet st o k h out
+    | ["L", "=", out] => if out == "err" then some (st, o.fail "A-len-error" "") else doLen st o out
+    | "N" :: k :: h :: "=" :: res => doNext st o k h res
+    | ["X", k, h, v, "=", out] => doNewindex st o k h v out
+    | ["I", k, h, "=", called, v] =>
+      if called == "err" then
+        -- t[nil] / t[NaN] on a table with __index: no error expected
+        some (st, o.fail "A-index-error" k)
+      else doIndex st o k h called v
+    | "D" :: rest => doDump st o rest
+    | ["K", "ok"] => some (st, o)
+    | "K" :: msg => some (st, o.fail "go-invariant" (" ".intercalate msg))
+    | _ => none
+  match r with
+  | some (st, o) => (st, o.render)
+  | none => (st, "bad-line")
+
 def main (_args : List String) : IO UInt32 := do
-  IO.eprintln "oracle mode c03: not built"
-  return 2
+  let stdin ← IO.getStdin
+  let stdout ← IO.getStdout
+  let stRef ← IO.mkRef ({} : St)
+  forEachLine stdin fun line => do
+    let st ← stRef.get
+    let (st', out) := processLine st line
+    stRef.set st'
+    stdout.putStrLn out
+  stdout.flush
+  return 0
 
 end Oracle.C03
